@@ -265,14 +265,18 @@ def explore_cues(ctx):
         return F.eval_in(mod, _ast.parse(text, mode="eval").body, local)
     la = Wd.layout(((10, "%"), (10, "%")), None, None, "LEFT")
     lb = Wd.layout(((50, "%"), (80, "%")), None, None, "RIGHT")
-    for label, layouts in (("two layouts", [la, lb]), ("same layout twice", [la, la]), ("three nodes, two layouts", [la, la, lb])):
+    import re as _re
+    for label, layouts, cstyle in (("two layouts", [la, lb], {}), ("same layout twice", [la, la], {}), ("three nodes, two layouts", [la, la, lb], {}),
+                                   # a style of the whole caption: every cue the caption is split into carries it, balanced
+                                   ("two layouts, caption in italics and bold", [la, lb], {"italics": True, "bold": True}),
+                                   ("three nodes, two layouts, caption underlined", [la, la, lb], {"underline": True})):
         n += 1
         nodes = []
         for i, l in enumerate(layouts):
             if i:
                 nodes.append(ev("CaptionNode.create_break(layout_info=l)", l=l))
             nodes.append(ev("CaptionNode.create_text(t, layout_info=l)", t=f"part{i}", l=l))
-        cs = ev("CaptionSet({'en-US': CaptionList([Caption(1000000, 2000000, n)])})", n=nodes)
+        cs = ev("CaptionSet({'en-US': CaptionList([Caption(1000000, 2000000, n, style=st)])})", n=nodes, st=dict(cstyle))
         try:
             wc, w = obj("pycaption/webvtt.py", "WebVTTWriter")
             out = F.call_function(wc.find_method("write"), [cs], {}, self_value=w)
@@ -299,8 +303,22 @@ def explore_cues(ctx):
             else:
                 groups.append([l, [f"part{i}"]])
         want = [("position:10%" if g[0] is la else "position:50%", g[1]) for g in groups]
-        ok = len(cues) == len(want) and all(c[0].startswith("00:01.000 --> 00:02.000") and w_[0] in c[0] and
-                                             [x.strip() for x in c[1] if x.strip()] == w_[1] for c, w_ in zip(cues, want))
+        def _balanced(text):
+            depth = []
+            for m_ in _re.finditer(r"<(/?)([a-z]+)[^>]*>", text):
+                if not m_.group(1):
+                    depth.append(m_.group(2))
+                elif not depth or depth.pop() != m_.group(2):
+                    return False
+            return not depth
+        tags = {"italics": "i", "bold": "b", "underline": "u"}
+        ok = len(cues) == len(want) and all(
+            c[0].startswith("00:01.000 --> 00:02.000") and w_[0] in c[0]
+            and [t_ for t_ in (_re.sub(r"<[^>]+>", "", x).strip() for x in c[1]) if t_] == w_[1]
+            and _balanced("\n".join(c[1]))
+            and all(f"<{tags[k_]}>" in "\n".join(c[1]) for k_ in cstyle)
+            and (cstyle or not _re.search(r"<[^>]+>", "\n".join(c[1])))
+            for c, w_ in zip(cues, want))
         if not ok:
             bad["split"].append({"caption": label, "cues_written": cues, "required": want})
     return F, bad, n
